@@ -25,9 +25,21 @@ let put_id = function
   | IUuid n -> put_int 3; put_n n
 let next_bool () = next_int () <> 0
 
+let next_mid () = match next_int () with 0 -> None | _ -> Some (next_id ())
+(* user code of a callback: a list of operations, 0 h = cancel future h, 1 m rt mid = send a
+   follow-up request whose callback is the rest of the list *)
+let next_kont () =
+  let ops = read_list (fun () -> match next_int () with
+    | 0 -> `C (next_nat ())
+    | _ -> let m = next_n () in let rt = next_n () in let mid = next_mid () in `S (m, rt, mid)) in
+  List.fold_right (fun op k -> match op with `C h -> KCancel (h, k) | `S (m, rt, mid) -> KSend (m, rt, mid, k)) ops KNone
+let next_cb () = match next_int () with
+  | 0 -> CbNone
+  | 1 -> CbUser (next_kont ())
+  | _ -> CbDone (next_kont ())
 let next_ev () = match next_int () with
-  | 0 -> let m = next_n () in let rt = next_n () in let cb = next_bool () in
-         let mid = (match next_int () with 0 -> None | _ -> Some (next_id ())) in
+  | 0 -> let m = next_n () in let rt = next_n () in let cb = next_cb () in
+         let mid = next_mid () in
          UserSend (m, rt, cb, mid)
   | 1 -> let i = next_id () in let p = next_n () in let oks = read_list next_n in RecvResult (i, p, oks)
   | 2 -> let i = next_id () in let c = next_zb () in let m = next_str () in let d = next_n () in
